@@ -15,7 +15,8 @@
 (*        pass-through strings.                                                                   *)
 (* Data{want, b_res, enc_res, dec_res, got, where, cls, plus1}          C06                       *)
 (*        want = requested fields, got = fields after encode -> decode.                           *)
-(* Try{kind, res, ms, facts}             C03                                                      *)
+(* Try{kind, res, ms, bound, f, san}     C03   f = length facts of the input, san = kind and innermost *)
+(*        fix8 function of the sanitizer report ("ubsan:signed_integer_overflow:fast_atoi")        *)
 EXTENDS Common, Decode
 
 VARIABLES l, cur, fails, nexec
@@ -114,12 +115,14 @@ Explains(e) ==
     IF e.kind = "dec" THEN
         (IF e.f.tag3 >= TagCapHdr \/ e.f.tagmax >= ValCap THEN "unbounded_tag"
          ELSE IF e.f.val23 >= TagCapHdr \/ e.f.valmax >= ValCap THEN "unbounded_val"
+         ELSE IF e.f.enclen + 32 + 8 > EncCap THEN "unbounded_encode"       \* the probe re-encodes what it decoded
          ELSE "unexplained")
     ELSE (IF e.f.enclen + 32 + 8 > EncCap THEN "unbounded_encode" ELSE "unexplained")
 MonTry(e) ==
     IF e.res \in {"ok", "exc"} THEN
         (IF e.ms > e.bound THEN Fail("too_slow", e.kind \o ":slow") ELSE Pass)
-    ELSE Fail("not_total_or_memory_error:" \o e.res, e.kind \o ":" \o e.res \o ":" \o Explains(e))
+    ELSE Fail("not_total_or_memory_error:" \o e.res,
+              e.kind \o ":" \o e.res \o ":" \o Explains(e) \o ":" \o e.san)
 
 MonStep(e) ==
     CASE e.e = "Strict" -> MonStrict(e)
